@@ -139,3 +139,63 @@ func (a *Arena) Locate(addr uintptr) (backing, off int, ok bool) {
 
 // Used returns the number of backings.
 func (a *Arena) Used() int { return a.used }
+
+// Vars is a second guarded region with one page per caller variable and no
+// guard pages: the simulator keeps the element and scalar variables of a task
+// here so that, during a call, only the receiver's page is writable and a store
+// to any other variable (a pointer argument, or a bystander) traps.
+type Vars struct {
+	mem []byte
+	n   int
+	// counters
+	Calls uint64
+}
+
+// NewVars maps n variable pages (read-write).
+func NewVars(n int) (*Vars, error) {
+	mem, err := syscall.Mmap(-1, 0, n*page, syscall.PROT_READ|syscall.PROT_WRITE, syscall.MAP_ANON|syscall.MAP_PRIVATE)
+	if err != nil {
+		return nil, fmt.Errorf("arena: mmap: %w", err)
+	}
+	return &Vars{mem: mem, n: n}, nil
+}
+
+// N returns the number of pages.
+func (v *Vars) N() int { return v.n }
+
+// Slot returns page i.
+func (v *Vars) Slot(i int) []byte { return v.mem[i*page : (i+1)*page : (i+1)*page] }
+
+// SetAll sets the protection of the first k pages.
+func (v *Vars) SetAll(k int, writable bool) {
+	prot := syscall.PROT_READ
+	if writable {
+		prot |= syscall.PROT_WRITE
+	}
+	if k > 0 {
+		mprotect(v.mem[:k*page], prot)
+	}
+	v.Calls++
+}
+
+// SetOne sets the protection of page i.
+func (v *Vars) SetOne(i int, writable bool) {
+	prot := syscall.PROT_READ
+	if writable {
+		prot |= syscall.PROT_WRITE
+	}
+	mprotect(v.Slot(i), prot)
+	v.Calls++
+}
+
+// Contains reports whether addr lies in the region.
+func (v *Vars) Contains(addr uintptr) bool {
+	b := uintptr(unsafe.Pointer(&v.mem[0]))
+	return addr >= b && addr < b+uintptr(len(v.mem))
+}
+
+// Locate returns the page index and offset of addr.
+func (v *Vars) Locate(addr uintptr) (slot, off int) {
+	rel := int(addr - uintptr(unsafe.Pointer(&v.mem[0])))
+	return rel / page, rel % page
+}
